@@ -5,13 +5,15 @@
   Byte-string pieces (`<piece>`):  `h:<hex>` literal bytes, `r:<byte>:<count>`
   a byte repeated (multi-megabyte arguments stay small in the ops file).
 
-    dec <i> <start> <bufsize> <frag> <fseed> <piece>...
+    dec <i> <start> <preset> <bufsize> <frag> <fseed> <piece>...
         the stream is the concatenation of the pieces (bufsize/frag/fseed only
-        steer the Go side's bufio size and read fragmentation). Output: one
-        line `#i c <name> <args> @<offset>` per decoded command
+        steer the Go side's bufio size and read fragmentation); <preset> is the
+        value of Decoder.offset before the first read (0 for a fresh decoder).
+        Output: one line `#i c <name> <args> @<offset>` per decoded command
         (offset = start + decoder offset), then `#i e <eof|ueof|bad|parse>`.
     wa <i> <arg>...     proto.Writer.WriteArgs of the arguments
         <arg> = b:<hex> | s:<hex> | B:<byte>:<count> ([]byte) | i:<int> | u:<nat> | t | f | n
+              | F:<hex of the float's 'f',-1,64 text>
         Output: `#i w <bytes written>` then the result of decoding those bytes
         with a fresh decoder: `#i c <name> <args> @<offset>` or `#i e <err>`.
     en <i> <arg>...     client.Encode of the command as an array of bulks
@@ -72,6 +74,7 @@ def arg (t : String) : Option Arg :=
     match b.toNat?, n.toNat? with
     | some b, some n => if b < 256 then some (Arg.bytes (List.replicate n (UInt8.ofNat b))) else none
     | _, _ => none
+  | ["F", h] => (unhex h).map Arg.float
   | ["i", v] => v.toInt?.map Arg.int
   | ["u", v] => v.toNat?.map Arg.uint
   | ["t"] => some (Arg.bool true)
@@ -96,12 +99,12 @@ def decodeBack (i : String) (bs : Bytes) : List String :=
     | .error e => [s!"#{i} e {e.name}"]
 
 def handle : List String → Option (List String)
-  | "dec" :: i :: start :: _buf :: _frag :: _seed :: ps =>
-    match start.toNat?, pieces ps with
-    | some st, some inp =>
-      let (cs, e) := decodeAll st inp
+  | "dec" :: i :: start :: pre :: _buf :: _frag :: _seed :: ps =>
+    match start.toNat?, pre.toNat?, pieces ps with
+    | some st, some pre, some inp =>
+      let (cs, e) := decodeAllFrom st pre inp
       some (cs.map (fun (c, off) => cmdLine i c off) ++ [s!"#{i} e {e.name}"])
-    | _, _ => some ["bad-op"]
+    | _, _, _ => some ["bad-op"]
   | "wa" :: i :: as =>
     match args as with
     | some as => some (decodeBack i (writeArgs as))
